@@ -44,6 +44,7 @@ type Profile struct {
 	Vlog                                                     bool
 	SmallMem                                                 bool // memtables small enough to rotate within a run
 	Compaction                                               bool // compaction workers are part of the scenario
+	Clock                                                    bool // clock jumps are part of the schedule
 }
 
 func genConfig(t *rapid.T, p *Profile) Config {
@@ -90,6 +91,19 @@ func genConfig(t *rapid.T, p *Profile) Config {
 	if !p.Compaction {
 		// nobody compacts in this family: an L0 stall would never end
 		c.L0Stall = 100000
+	} else {
+		c.NumCompactors = rapid.IntRange(2, 4).Draw(t, "num_compactors")
+		c.L0Tables = rapid.IntRange(1, 4).Draw(t, "l0_tables_k")
+		c.L0Stall = c.L0Tables + rapid.IntRange(1, 4).Draw(t, "l0_stall_k")
+		c.MemTableSize = int64(rapid.SampledFrom([]int{2 << 10, 3 << 10, 4 << 10, 8 << 10}).Draw(t, "memtable_k"))
+		if c.ValueThreshold > c.MemTableSize*15/100 {
+			c.ValueThreshold = c.MemTableSize * 15 / 100
+		}
+		c.BaseTableSize = int64(rapid.SampledFrom([]int{512, 1 << 10, 2 << 10, 4 << 10}).Draw(t, "base_table_size_k"))
+		c.BaseLevelSize = int64(rapid.SampledFrom([]int{1 << 10, 4 << 10, 16 << 10, 1 << 20}).Draw(t, "base_level_size_k"))
+		c.LevelMult = rapid.SampledFrom([]int{2, 3, 10}).Draw(t, "level_mult_k")
+		c.LmaxCompaction = rapid.Bool().Draw(t, "lmax_compaction")
+		c.CompactL0OnClose = rapid.Bool().Draw(t, "compact_l0_on_close")
 	}
 	c.VerifyValueChecksum = rapid.Bool().Draw(t, "verify_value_checksum")
 	c.ChecksumMode = rapid.IntRange(0, 3).Draw(t, "checksum_mode")
@@ -99,6 +113,10 @@ func genConfig(t *rapid.T, p *Profile) Config {
 	c.SkipSeed = rapid.Uint64Range(1, 1<<20).Draw(t, "skip_seed")
 	if p.SmallMem {
 		c.Prefill = rapid.SampledFrom([]int{0, 0, 50, 80, 95, 99, 150}).Draw(t, "prefill")
+	}
+	if p.Compaction {
+		c.Prefill = rapid.SampledFrom([]int{100, 250, 400, 700, 1200}).Draw(t, "prefill_k")
+		c.PrefillAllKeys = true
 	}
 	return c
 }
@@ -294,5 +312,13 @@ func GenCase(t *rapid.T, p *Profile) *Case {
 		c.Clients = append(c.Clients, genClient(t, p, &c.Cfg, len(c.Keys), p.MaxOps))
 	}
 	c.Sched = genSched(t, p.MaxDec)
+	if p.Compaction || p.Clock {
+		c.Sched.ClockPct = rapid.SampledFrom([]int{2, 5, 15, 30}).Draw(t, "clock_pct")
+		c.Sched.ClockMs = rapid.SampledFrom([][]int{
+			{50, 50, 50, 100},
+			{50, 50, 100, 1000, 11000},
+			{50, 1000, 11000, 11000, 3700000},
+		}).Draw(t, "clock_ms")
+	}
 	return c
 }
